@@ -189,10 +189,27 @@ def gen_cover(rng):
     return {"A": rows, "b": rhs, "c": [rng.choice([-5, -4, -3, -2, -1, 1, 2, 3, 4, 5]) for _ in range(n)], "floats": rng.random() < 0.5}
 
 
+def gen_free_direction(rng):
+    """a variable that costs nothing and only loosens rows (its column is <= 0): the optimal face is unbounded while the optimum is
+    finite; coefficients 3, 5, 7 make the pivots non-dyadic, so a reduced cost that is exactly 0 comes out as +-1e-16 in floats"""
+    n, m = rng.randint(2, 3), rng.randint(2, 4)
+    vals = [-7, -5, -3, -2, -1, 1, 2, 3, 5, 7]
+    A = [[rng.choice(vals) if rng.random() < 0.8 else 0 for _ in range(n)] for _ in range(m)]
+    b = [rng.randint(-6, 9) for _ in range(m)]
+    c = [rng.randint(-5, 5) for _ in range(n)]
+    j = rng.randint(0, n)
+    for i in range(m):
+        A[i].insert(j, -rng.randint(0, 3))
+    c.insert(j, 0)
+    return {"A": A, "b": b, "c": c, "floats": rng.random() < 0.5, "max_iters": ()}
+
+
 def gen(rng, big=False):
     r0 = rng.random()
     if r0 < 0.05:
         return gen_nearly_feasible(rng)
+    if r0 >= 0.8:
+        return gen_free_direction(rng)
     if r0 < 0.2:
         return gen_cover(rng)
     if r0 < 0.3:
